@@ -819,7 +819,8 @@ func runC20(c *core.Ctx) {
 			core.Undecided("expected one refill call in Find, found %d", len(refills))
 		}
 		rf := refills[0].V
-		isUsedSample := func(obj types.Object) (*core.V, bool) {
+		var isUsedSample func(obj types.Object) (*core.V, bool)
+		isUsedSample = func(obj types.Object) (*core.V, bool) {
 			defs := defVertices(g, obj)
 			if len(defs) != 1 {
 				return nil, false
@@ -827,6 +828,12 @@ func runC20(c *core.Ctx) {
 			r, ok := rhsFor(info, defs[0], obj)
 			if !ok || r == nil {
 				return nil, false
+			}
+			if id, isID := ast.Unparen(r).(*ast.Ident); isID {
+				// a copy of a sample (endBefore := used with used := s.used): the moment of the read counts
+				if inner := info.ObjectOf(id); inner != nil && inner != obj {
+					return isUsedSample(inner)
+				}
 			}
 			sel, ok := ast.Unparen(r).(*ast.SelectorExpr)
 			return defs[0], ok && sel.Sel.Name == "used"
@@ -854,8 +861,28 @@ func runC20(c *core.Ctx) {
 			}
 			var good []core.EdgeRef
 			for _, bv := range g.BranchVertices() {
+				branch := bv
 				for _, l := range []core.EdgeLabel{core.EdgeTrue, core.EdgeFalse} {
+					type located struct {
+						a  core.Atom
+						at *core.V // where the comparison is evaluated
+					}
+					var atoms []located
 					for _, a := range bv.Implied(l) {
+						atoms = append(atoms, located{a, bv})
+						// a comparison kept in a boolean local (noNewData := s.used == endBefore): evaluated at its definition
+						if id, isID := ast.Unparen(a.Expr).(*ast.Ident); isID && a.Tag == nil {
+							if obj := info.ObjectOf(id); obj != nil {
+								if ds := defVertices(g, obj); len(ds) == 1 {
+									for _, a2 := range g.ExpandNamed(a) {
+										atoms = append(atoms, located{a2, ds[0]})
+									}
+								}
+							}
+						}
+					}
+					for _, la := range atoms {
+						a, bv := la.a, la.at
 						cmp, isCmp := a.AsCmp()
 						if !isCmp || cmp.Op != token.EQL {
 							continue
@@ -870,10 +897,10 @@ func runC20(c *core.Ctx) {
 								continue
 							}
 							if isUsedField(pair[1]) && after(bv) {
-								good = append(good, core.EdgeRef{From: bv, Label: l})
+								good = append(good, core.EdgeRef{From: branch, Label: l})
 							} else if ro := core.ObjOf(info, pair[1]); ro != nil && !isUsedField(pair[1]) {
 								if rd, ok2 := isUsedSample(ro); ok2 && after(rd) {
-									good = append(good, core.EdgeRef{From: bv, Label: l})
+									good = append(good, core.EdgeRef{From: branch, Label: l})
 								}
 							}
 						}
